@@ -516,16 +516,34 @@ Fixpoint sch_prefix (p s : pystr) : option pystr :=
   | x :: p', y :: s' => if sch_eqb x y then sch_prefix p' s' else None
   | _ :: _, [] => None
   end.
-Fixpoint sch_replace_fuel (fuel : nat) (s old new : pystr) : pystr :=
-  match fuel with
-  | O => s
-  | S f =>
-    match s with
-    | [] => []
-    | c :: r => match sch_prefix old s with
-                | Some rest => match old with [] => s | _ => new ++ sch_replace_fuel f rest old new end
-                | None => c :: sch_replace_fuel f r old new
-                end
+(* scanning left to right; after a match the characters of the occurrence are skipped *)
+Fixpoint sch_rep (s old new : pystr) (skip : nat) : pystr :=
+  match s with
+  | [] => []
+  | c :: r =>
+    match skip with
+    | S k => sch_rep r old new k
+    | O => match sch_prefix old s with
+           | Some _ => match old with
+                       | [] => c :: sch_rep r old new 0
+                       | _ :: o' => new ++ sch_rep r old new (List.length o')
+                       end
+           | None => c :: sch_rep r old new 0
+           end
     end
   end.
-Definition sch_replace (s old new : pystr) : pystr := sch_replace_fuel (S (List.length s)) s old new.
+Definition sch_replace (s old new : pystr) : pystr := sch_rep s old new 0.
+
+(* a part class as AbstractPart.structure() sees it: module or vector part, its cutter, its
+   (upstream, downstream) signature *)
+Record partcls := PCS { pc_role : role; pc_enz : enzyme; pc_sig : pystr * pystr }.
+Definition pc_is_module (c : partcls) : bool := match pc_role c with RModule => true | RVector => false end.
+Definition pc_is_vector (c : partcls) : bool := match pc_role c with RVector => true | RModule => false end.
+(* cutter.ovhgseq: N x overhang; cutter.is_5overhang(): the family cuts with a 5' overhang *)
+Definition enz_ovhgseq (e : enzyme) : pystr := repeat (SL cN) (eovh e).
+Definition enz_is_5overhang (e : enzyme) : bool := true.
+(* "^{}_".format(x), "_{}^".format(x), "({})(".format(x), ")({})".format(x) *)
+Definition fmt_caret_under (x : pystr) : pystr := [SCaret] ++ x ++ [SUnder].
+Definition fmt_under_caret (x : pystr) : pystr := [SUnder] ++ x ++ [SCaret].
+Definition fmt_group_open (x : pystr) : pystr := [SOpen] ++ x ++ [SClose; SOpen].
+Definition fmt_close_group (x : pystr) : pystr := [SClose; SOpen] ++ x ++ [SClose].
